@@ -15,7 +15,8 @@ CONSTANTS WrapFix,     \* TRUE: a recent signer is also rejected while number < 
           InitNumber,  \* number of the header the client is created with (a multiple of Epoch)
           InitSet,     \* validator set of the client state and of the creation header's extra data
           InitSigner,
-          MaxNumber
+          MaxNumber,
+          UpgradeSets  \* the validator sets an upgrade proposal may install (empty: no upgrades in this configuration)
 
 VARIABLES number,     \* number of the head
           validators, \* current validator set
@@ -67,14 +68,35 @@ UpdateEff(hd) ==
      /\ recents' = Restrict(rec0, (DOMAIN rec0) \ (drop1 \cup drop2))
      /\ cons' = cons \cup {n}
 
+(* A governance upgrade (UpgradeClientProposal -> ClientState.UpgradeState) installs a new client state: the head *)
+(* becomes the proposal's header (an epoch header, lower or higher than the old head), the validator set is the   *)
+(* proposal's, the pending set is the list that header announces, and the recent-signer window is reset to the    *)
+(* sealer of that header.  Consensus states stored before stay.                                                  *)
+UpgradeOK(hd) == hd.structOK /\ hd.number % Epoch = 0 /\ hd.coinbaseOK /\ hd.extra # {}
+UpgradeEff(hd, vs) ==
+  IF ~UpgradeOK(hd) THEN UNCHANGED stateVars
+  ELSE /\ number' = hd.number /\ validators' = vs /\ pending' = hd.extra
+       /\ recents' = (hd.number :> hd.signer) /\ cons' = cons \cup {hd.number}
+EpochBelow(n) == n - (n % Epoch)
+
 Res(ok) == IF ok THEN "ok" ELSE "err"
-Next == \E hd \in Header : /\ hd.number \in {number, number + 1, number + 2} /\ hd.number <= MaxNumber
-                           /\ (hd.extra # {} => Cardinality(hd.extra) >= 1)
-                           /\ UpdateEff(hd) /\ last' = [act |-> "Update", res |-> Res(Accept(hd)), hd |-> hd]
+Extras == {{}} \cup ((SUBSET Vals) \ {{}})
+Hdr(n, pk, sg, ck, df, ex, sk) == [number |-> n, parentOK |-> pk, signer |-> sg, coinbaseOK |-> ck, diff |-> df, extra |-> ex, structOK |-> sk]
+UpdateNext == \E n \in {number, number + 1, number + 2}, pk \in BOOLEAN, sg \in Vals, ck \in BOOLEAN, df \in {1, 2}, ex \in Extras, sk \in BOOLEAN :
+                 LET hd == Hdr(n, pk, sg, ck, df, ex, sk) IN
+                 /\ n <= MaxNumber
+                 /\ UpdateEff(hd) /\ last' = [act |-> "Update", res |-> Res(Accept(hd)), hd |-> hd]
+UpgradeNext == \E n \in {EpochBelow(number), EpochBelow(number) + Epoch, number}, sg \in Vals, ck \in BOOLEAN, ex \in Extras, sk \in BOOLEAN, vs \in UpgradeSets :
+                  LET hd == Hdr(n, TRUE, sg, ck, 2, ex, sk) IN
+                  /\ n <= MaxNumber /\ n > 0
+                  /\ UpgradeEff(hd, vs) /\ last' = [act |-> "Upgrade", res |-> Res(UpgradeOK(hd)), hd |-> hd, set |-> vs]
+Next == UpdateNext \/ UpgradeNext
 Spec == Init /\ [][Next]_vars
 
 -----------------------------------------------------------------------------
-(* C09 *)
+(* C09 (Update steps) and the BSC part of C18 (Upgrade steps) *)
+UpgradeInstalls == [][(last'.act = "Upgrade" /\ last'.res = "ok") =>
+                        (number' = last'.hd.number /\ validators' = last'.set /\ pending' = last'.hd.extra /\ DOMAIN recents' = {number'} /\ number' \in cons')]_vars
 LastSigners(n, k) == { recents[m] : m \in {x \in DOMAIN recents : x >= n - k /\ x < n} }
 Eligible(hd) ==
   /\ hd.signer \in validators /\ hd.coinbaseOK
@@ -82,7 +104,7 @@ Eligible(hd) ==
   /\ hd.diff = (IF InTurn(validators, number, hd.signer) THEN 2 ELSE 1)
 AcceptedIsChild == [][(last'.res = "ok" /\ last'.act = "Update") => (last'.hd.number = number + 1 /\ last'.hd.parentOK /\ last'.hd.structOK)]_vars
 SignerEligible == [][(last'.res = "ok" /\ last'.act = "Update") => Eligible(last'.hd)]_vars
-SetChangesOnlyAtOffset == [][validators' # validators => (number' % Epoch = Cardinality(validators) \div 2 /\ validators' = pending')]_vars
+SetChangesOnlyAtOffset == [][(validators' # validators /\ last'.act = "Update") => (number' % Epoch = Cardinality(validators) \div 2 /\ validators' = pending')]_vars
 PendingOnlyAtEpoch == [][pending' # pending => (number' % Epoch = 0 /\ pending' = last'.hd.extra)]_vars
 ConsIsRoot == [][(last'.res = "ok" /\ last'.act = "Update") => (cons' = cons \cup {last'.hd.number} /\ number' = last'.hd.number)]_vars
 RejectChangesNothing == [][last'.res = "err" => UNCHANGED stateVars]_vars
